@@ -125,7 +125,9 @@ decreasing_by
   · left; omega
 
 /-- emulated resolver of `ProcfsResolver` -/
-def opathResolve (root : Fd) (path : Bytes) (oflags rflags : Nat) : M Fd := do
+def opathResolve (root : Fd) (path : Bytes) (oflags rflags : Nat) : M Fd :=
+  -- `RESOLVE_BENEATH` refuses absolute paths outright
+  if Path.isAbsolute path then throw (.os EXDEV) else do
   let rootMnt ← fetchMntId root []
   let cur ← Sys.dup root
   opathLoop rootMnt oflags rflags cur (Path.rawComponents path) 0
@@ -141,11 +143,9 @@ def verifySameProcfsMnt (h : ProcH) (fd : Fd) : M Unit := do
   verifySameMnt h.mntId fd []
   verifyIsProcfs fd
 
-/-- `inner.metadata().expect("fstat(/proc) should work")` -/
-def fstatOrPanic (inner : Fd) : M Sys.Stat := do
-  match ← M.try' (Sys.fstatat inner []) with
-  | .ok st => pure st
-  | .error _ => throw (.panic "fstat(/proc) should work")
+/-- `inner.metadata()?` (a failing `fstat` is an ordinary error; the handle is dropped) -/
+def fstatOrPanic (inner : Fd) : M Sys.Stat :=
+  (Sys.fstatat inner []).onErr (Sys.close inner)
 
 /-- `accessat(inner, name, F_OK, AT_SYMLINK_NOFOLLOW).is_err()` -/
 def missing (inner : Fd) (name : Bytes) : M Bool := do
@@ -190,7 +190,7 @@ def newFsopen (env : Env) (subset : Bool) : M ProcH := do
 
 /-- `ProcfsHandle::new_open_tree` -/
 def newOpenTree (env : Env) (flags : Nat) : M ProcH := do
-  let fd ← Sys.openTree AT_FDCWD b!"/proc" (OPEN_TREE_CLONE ||| flags)
+  let fd ← Sys.openTree AT_FDCWD b!"/proc" (OPEN_TREE_CLONE ||| OPEN_TREE_CLOEXEC ||| flags)
   tryFromFd env fd
 
 /-- `ProcfsHandle::new_unsafe_open` -/
@@ -264,7 +264,8 @@ def readlinkH (env : Env) (h : ProcH) (base : Base) (subpath : Bytes) : M Bytes 
   M.ofExcept r
 
 /-- `ProcfsHandle::open_follow` -/
-def openFollowH (env : Env) (h : ProcH) (base : Base) (subpath : Bytes) (oflags : Nat) : M Fd := do
+def openFollowH (env : Env) (h : ProcH) (base : Base) (subpath : Bytes) (oflags : Nat) : M Fd :=
+  if hasAny oflags (O_CREAT ||| O_EXCL) || hasAll oflags O_TMPFILE then throw .invalidArgument else do
   let (subpath, trailingSlash) := Path.stripTrailingSlash subpath
   let oflags := if trailingSlash then oflags ||| O_DIRECTORY else oflags
   let isLink ← M.isOk (readlinkH env h base subpath)
